@@ -63,6 +63,21 @@ def generate(rng, tier='quick', kind=None, mode='history', **kw):
       cfg['aperture'].update({'min_size': 1, 'max_size': rng.choice([8, 2 ** 31])})
       ops.append({'t': 0.0, 'op': 'steady', 'c': c, 'dur': 3.0, 'svc': 0.002, 'spread': True})
       return {'world': 'w_bal', 'cfg': cfg, 'ops': ops, 'mode': 'steady'}
+    if rng.random() < 0.15:
+      # a band above one request per member: the set grows under load, every
+      # member is then given one slow request, traffic falls (the set contracts
+      # around members that still have a request outstanding: they drain), and
+      # rises again while those requests are still pending
+      n = rng.choice([2, 2, 3])
+      lo = rng.choice([1.5, 2.0])
+      cfg.update({'n': n, 'initial': list(range(n))})
+      cfg['aperture'].update({'min_size': 1, 'max_size': rng.choice([n, 8, 2 ** 31]), 'min_load': lo, 'max_load': 2 * lo})
+      ops.append({'t': 0.0, 'op': 'steady', 'c': 8, 'dur': 10.0, 'svc': 0.05})
+      for i in range(n):
+        ops.append({'t': 12.0, 'op': 'call', 'id': 'slow%d' % i, 'timeout': 80.0, 'svc': 60.0, 'kind': 'ok'})
+      ops.append({'t': 12.01, 'op': 'steady', 'c': 1, 'dur': rng.choice([8.0, 12.0]), 'svc': 0.05})
+      ops.append({'t': 27.0, 'op': 'steady', 'c': rng.choice([8, 12]), 'dur': 10.0, 'svc': 0.05})
+      return {'world': 'w_bal', 'cfg': cfg, 'ops': ops, 'mode': 'steady'}
     if rng.random() < 0.3:
       # members that take a long time to open (slow handshake): growth must not
       # wait for an open that is still in flight
